@@ -132,8 +132,10 @@ theorem markZombie_wf (m : Multi) (h : WF m) (idx : Nat) (hlt : idx < m.members.
   split
   · exact WF.of_same (m := m) ⟨by simp, rfl, rfl⟩ h
   · dsimp only
-    have : Same m { m with z := m.z + (if m.target.fx.fkept = true then min m.target.llc (m.memberRows idx + m.blankOnTop) else m.memberRows idx + m.blankOnTop),
-                           target := { m.target with llc := m.target.llc - (m.memberRows idx + m.blankOnTop) } } := ⟨rfl, rfl, rfl⟩
+    have : ∀ (zz : Nat) (tt : TermTarget) (bp : Nat), Same m { m with z := zz, target := tt, blankPainted := bp } := fun _ _ _ => ⟨rfl, rfl, rfl⟩
+    have := this (m.z + (if m.target.fx.fkept = true then min m.target.llc (m.memberRows idx + (if m.target.fx.fblank = true then m.blankPainted else m.blankOnTop)) else m.memberRows idx + (if m.target.fx.fblank = true then m.blankPainted else m.blankOnTop)))
+      { m.target with llc := m.target.llc - (m.memberRows idx + (if m.target.fx.fblank = true then m.blankPainted else m.blankOnTop)) }
+      (if m.target.fx.fblank = true then 0 else m.blankPainted)
     exact WF.of_same (removeIdx_same this idx) (C02_remove_wf m h idx hlt).1
 
 end IndicatifModel.Multi
